@@ -216,7 +216,7 @@ fn run_case(case: &Case, st: &mut RunStats) -> Outcome<Case> {
     }
     let mut dg = Digest::new();
     dg.bytes(&final_image);
-    let fp_base = shape_fingerprint(&WriterCase { prog: case.prog.clone(), wchunk: case.wchunk.clone(), rchunk: Chunk::Full, sink: Chunk::Full }, None);
+    let fp_base = shape_fingerprint(&WriterCase { prog: case.prog.clone(), wchunk: case.wchunk.clone(), rchunk: Chunk::Full, sink: Chunk::Full, legacy_blob_headers: false }, None);
     let mut accepted_count = 0u64;
     for pt in points {
         st.evaluations += 1;
